@@ -68,7 +68,7 @@ GRID = ("representation, not a restriction of the input: the exact division `(en
         "run and the Fraction oracle cover every case incl. three words in 1/16 s)")
 RULES = [
     # ---------------------------------------------------------------- statement-level layer for the mutators (DESIGN 11.10)
-    (r"C13\.p?tierStep_refines$|C13\.p?tier_mutator_atomic_stmt$|Imp\.[ip]insertEntry_atomic$", r"rep ≠ \.error", "i",
+    (r"C13\.p?tierStep_refines$|C13\.p?tier_mutator_atomic_stmt$|Imp\.[ip]insertEntry(Py)?_atomic$", r"rep\?? ≠ (some )?\.error", "i",
      "the documented domain of `collisionReportingMode` is `Literal[\"silence\", \"warning\"]` (the signature; C11's quantifier). "
      "`'error'` is accepted by `validateOption` and its report is raised AFTER every write: replayed on the real classes (fault "
      "stream of C13, cases flagged `outside`: the real tier and the statement-level model are left in the same modified state); "
@@ -87,6 +87,15 @@ RULES = [
      "L522-523); on a tier with overlapping entries it raises TextgridStateError and the tier is gone (`#guard`s on `C13.exBad`); "
      "replayed on the real classes by writing `tier._entries` directly (not reachable through the API): same loss. Refinement "
      "(`Imp.exec_renameTier`) holds for every textgrid with unique names"),
+    (r"Imp\.exec_replaceRestore$|Imp\.exec_replaceTierCore$", r"hk : C12\.idxOf|hold : ", "res",
+     "case distinction: the replaced name is present (`hk`, `hold` name its position and tier); an absent name raises ValueError in "
+     "the first statement (`Imp.exec_replaceTier`, `Imp.replaceTierPy_atomic` treat both cases)"),
+    (r"Imp\.exec_replaceTierCore$", r"hfail", "ii",
+     "what `replaceTier`'s `except` block relies on: the call inside the `try` leaves the textgrid alone when it raises, and raises "
+     "PraatioExceptions only — PROVED of `addTier` (`Imp.exec_addTier`, `C13.addTier_fails_before_mutation`) and of `addTier` with an "
+     "invalid option (`Imp.exec_addTierPy`); the seeded variants that break it are caught by op imp_tg_replace"),
+    (r"Imp\.exec_replaceTierPy_invalid$", r"hn : n ∈ g\.names", "res",
+     "case distinction: a present name (the rollback runs); an absent one raises ValueError before anything (`Imp.replaceTierPy_atomic`)"),
     (r"C13\.exec_mutF_collision$", r"hx : x\.s < x\.e|hcol", "res",
      "the family of counter-examples to the seeded variant: any colliding insert of a positive-length entry (a zero-length one "
      "is refused by the crop before the moved span update)"),
